@@ -121,6 +121,10 @@ struct Case {
 	stages: Vec<Stage>,
 	consumer: Consumer,
 	sched: Schedule,
+	/// r > 0: every item whose index is a multiple of r + 1 (except the first) has the same
+	/// coordinate as its predecessor (a stream may carry a coordinate more than once)
+	#[serde(default)]
+	repeat: u8,
 }
 
 // ---------------------------------------------------------------------------------------
@@ -138,7 +142,8 @@ struct Plan {
 	delay_us: Vec<Vec<u32>>,
 	gated: bool,
 	bias: Bias,
-	index_of: HashMap<(u8, u32, u32), u32>,
+	/// indices of the items with this coordinate, ascending
+	index_of: HashMap<(u8, u32, u32), Vec<u32>>,
 }
 
 fn coord_text(c: &TileCoord3) -> String {
@@ -227,12 +232,17 @@ fn plan_of(case: &Case) -> Result<Plan, String> {
 		let idx = (case.start as u64).wrapping_add(step.wrapping_mul(i as u64)) % cells;
 		let x = (idx & ((1u64 << z) - 1)) as u32;
 		let y = (idx >> z) as u32;
-		let c = TileCoord3 { x, y, z };
+		let mut c = TileCoord3 { x, y, z };
+		let repeats = case.repeat > 0 && i > 0 && i % (case.repeat as usize + 1) == 0;
+		if repeats {
+			c = coords[i - 1];
+		}
 		texts.push(format!("i={i};{}", coord_text(&c)));
-		index_of.insert((z, x, y), i as u32);
+		index_of.entry((c.z, c.x, c.y)).or_insert_with(Vec::new).push(i as u32);
 		coords.push(c);
 	}
-	if index_of.len() != n {
+	let repeated = if case.repeat > 0 && n > 0 { (n - 1) / (case.repeat as usize + 1) } else { 0 };
+	if index_of.len() + repeated != n {
 		return Err("coordinates not distinct".into());
 	}
 	let ops: Vec<Op> = case.stages.iter().map(|s| s.op).collect();
@@ -315,6 +325,9 @@ struct Shared {
 	spawned: AtomicU64,
 	/// the case, for the message of a machinery error
 	case_text: String,
+	/// generate-from-coordinates: how many callbacks have been invoked for a coordinate so far
+	/// (the k-th invocation stands for the k-th item with that coordinate)
+	claimed: Mutex<HashMap<(u8, u32, u32), usize>>,
 }
 
 impl Shared {
@@ -577,7 +590,13 @@ fn build_stream(sh: &Arc<Shared>) -> TileStream<'static> {
 			let s = Arc::clone(sh);
 			let m = marker(Op::FromCoord, 0);
 			TileStream::from_coord_iter_parallel(iter, move |coord| {
-				let idx = s.plan.index_of.get(&(coord.z, coord.x, coord.y)).copied();
+				let key = (coord.z, coord.x, coord.y);
+				let idx = s.plan.index_of.get(&key).and_then(|v| {
+					let mut g = s.claimed.lock().unwrap();
+					let k = g.entry(key).or_insert(0);
+					*k += 1;
+					v.get(*k - 1).copied()
+				});
 				s.enter(0, idx, &format!("coordinate {}", coord_text(&coord)));
 				let out = match idx {
 					Some(i) if s.plan.keep[0][i as usize] => Some(Blob::from(format!("{}{m}", s.plan.texts[i as usize]))),
@@ -762,6 +781,7 @@ fn run(case: &Case, plan: Plan) -> Run {
 		ctrl: Condvar::new(),
 		spawned: AtomicU64::new(0),
 		case_text: format!("{case:?}"),
+		claimed: Mutex::new(HashMap::new()),
 	});
 	let rt = PooledRt::get();
 	let _ctx = rt.0.as_ref().unwrap().enter();
@@ -1041,6 +1061,7 @@ fn gate_case(n: usize, stages: Vec<Stage>, consumer: Consumer, bias: Bias) -> Ca
 		stages,
 		consumer,
 		sched: Schedule::Gate { batch: 1, bias },
+		repeat: 0,
 	}
 }
 
@@ -1165,7 +1186,7 @@ fn gated_strategy(n: impl Strategy<Value = u32>) -> impl Strategy<Value = Case> 
 		};
 		// items over 1..4 consecutive zoom levels (derived from the generated numbers)
 		let zspread = ((start >> 7) % 4) as u8;
-		Case { n, zextra, zspread, start, step, stages, consumer, sched: Schedule::Gate { batch, bias } }
+		Case { n, zextra, zspread, start, step, stages, consumer, sched: Schedule::Gate { batch, bias }, repeat: if (step >> 9) % 4 == 0 { 1 + ((step >> 11) % 5) as u8 } else { 0 } }
 	})
 }
 
@@ -1199,6 +1220,7 @@ fn delayed_strategy(n: impl Strategy<Value = u32>) -> impl Strategy<Value = Case
 		stages,
 		consumer,
 		sched: Schedule::Delay { seed, density, max_us },
+		repeat: if seed % 4 == 0 { 1 + ((seed >> 3) % 5) as u8 } else { 0 },
 	})
 }
 
@@ -1215,7 +1237,7 @@ fn main() {
 	let mut check = Check::from_args(
 		"C14",
 		"exploration",
-		"streams of n tiles whose blobs carry their own index and coordinate, pushed through map_blob_parallel / filter_map_blob_parallel (generated keep masks) / from_coord_iter_parallel (generated Some/None masks), alone or as chains of two, and consumed by collect or for_each_buffered(0..n+2); the completion order of the per-tile tasks is dictated by the harness (callbacks wait at gates, one release per poll of the consumer; all n! orders for n <= 5 (quick) / 6 (thorough), generated priorities up to n = 10^4) or, for the large-stream phase, perturbed by generated sleeps; phase one-cpu: delay-schedule cases in a child process restricted to one CPU (num_cpus::get() = 1); a case is non-trivial when n >= 2 and the recorded order in which the callbacks finished differs from the order in which the items were submitted to the operator; distinct = distinct serialised cases",
+		"streams of n tiles whose blobs carry their own index and coordinate (in a quarter of the generated cases every 2nd..6th item repeats the coordinate of its predecessor), pushed through map_blob_parallel / filter_map_blob_parallel (generated keep masks) / from_coord_iter_parallel (generated Some/None masks), alone or as chains of two, and consumed by collect or for_each_buffered(0..n+2); the completion order of the per-tile tasks is dictated by the harness (callbacks wait at gates, one release per poll of the consumer; all n! orders for n <= 5 (quick) / 6 (thorough), generated priorities up to n = 10^4) or, for the large-stream phase, perturbed by generated sleeps; phase one-cpu: delay-schedule cases in a child process restricted to one CPU (num_cpus::get() = 1); a case is non-trivial when n >= 2 and the recorded order in which the callbacks finished differs from the order in which the items were submitted to the operator; distinct = distinct serialised cases",
 	);
 	let cpus = num_cpus::get();
 	check.assume("the callbacks are synchronous closures that block a runtime worker while they wait; each case runs on a multi-thread tokio runtime with 2*num_cpus+2 workers so that the in-flight windows of two chained operators can wait at the same time");
